@@ -139,8 +139,11 @@ def gen_step(rng, sid, knames, weights=None):
     if kind == 'add_subkey':
         st['alg'] = rng.choice(['cv25519', 'cv25519', 'ed25519', 'p256', 'ecdh_p256', 'ecdh_p384'])
         st['usage'] = ('E' if not world.can_sign(st['alg']) else rng.choice(['S', 'S', 'SA', 'A']))
+        # a binding signature that itself expires (unusual, legal): the subkey stays a component of the key
+        st['sig_expires_s'] = rng.choice([None, None, None, 3600, 86400 * 30])
     if kind == 'rebind_subkey':
         st['usage'] = rng.choice(['S', 'E', 'ET', 'A', 'SA'])
+        st['sig_expires_s'] = rng.choice([None, None, None, 3600, 86400 * 30])
     if kind in ('certify_other', 'direct_other'):
         st['level'] = rng.choice([0x10, 0x11, 0x12, 0x13])
         st['exportable'] = rng.choice([None, None, True, False])
@@ -403,8 +406,12 @@ class KeyHistory(object):
         hk = self.hooks.get('on_new_component')
         if hk:
             hk(self, name, sub)
+        kw = {}
+        if st.get('sig_expires_s'):
+            kw['expires'] = datetime.timedelta(seconds=st['sig_expires_s'])
+            self.ctx.probe('binding_signature_expires')
         with self._unlocked(name):
-            k.add_subkey(sub, usage=world.flags_from(st['usage']))
+            k.add_subkey(sub, usage=world.flags_from(st['usage']), **kw)
             if mk.passphrase is not None:
                 # a component added to a protected key is protected with the same passphrase (as a caller would)
                 pass
@@ -425,8 +432,12 @@ class KeyHistory(object):
             usage = ''.join(c for c in usage if c in 'ET') or 'E'
         else:
             usage = ''.join(c for c in usage if c in 'SA') or 'S'
+        kw = {}
+        if st.get('sig_expires_s'):
+            kw['expires'] = datetime.timedelta(seconds=st['sig_expires_s'])
+            self.ctx.probe('binding_signature_expires')
         with self._unlocked(name):
-            sig = k.bind(sk, usage=world.flags_from(usage))
+            sig = k.bind(sk, usage=world.flags_from(usage), **kw)
         sk |= sig
         ms.sigs.append(self._rec(bytes(sig), 'bind', name, usage=usage))
 
